@@ -235,6 +235,51 @@ def run(rep: Report, tier: str) -> None:
                                 f"{nm}() casts to the types `{src(a) if a is not None else None}` while the table was created with the overrides {sorted(map(str, cre))}: the values are converted to a type "
                                 f"the table does not have and then again implicitly on INSERT (a DOUBLE converted directly instead of through its shortest text, a Date guard applied to a rendering)"))
     rep.floor("R18.10 loaders with CREATE TABLE and a cast select list", n10, 1)
+    # ---- R18.11: the source types the guards are chosen by are the ENGINE's view of the source columns ----
+    rep.rule("R18.11", "every loader that hands `source_types` to the select-list builder takes them from DuckDB's own description of the source (DESCRIBE / cursor description): "
+                       "a type guessed on the pandas side (an object column with a None in it is not `string`) skips the string guards the CSV loader applies to the same text")
+    n11 = 0
+    for f in P.iter_functions():
+        if not f.qualname.startswith("vtlengine.duckdb_transpiler.io."):
+            continue
+        for c in walk_no_nested(f.node):
+            if not isinstance(c, ast.Call):
+                continue
+            for t in P.resolve_call(f, c):
+                callee = P.functions.get(t)
+                if callee is None or "source_types" not in callee.params or callee.qualname == f.qualname:
+                    continue
+                cps = [x for x in callee.params if x not in ("self", "cls")]
+                i = cps.index("source_types")
+                arg = next((k.value for k in c.keywords if k.arg == "source_types"), c.args[i] if i < len(c.args) else None)
+                if arg is None:
+                    continue
+                n11 += 1
+
+                def from_engine(e: ast.AST, fn: Any, depth: int = 0) -> bool:
+                    for x in ast.walk(e):
+                        if isinstance(x, ast.Attribute) and x.attr in ("description", "types"):  # cursor description / relation.types (not pandas .dtypes)
+                            return True
+                        if isinstance(x, ast.Call) and isinstance(x.func, ast.Attribute) and x.func.attr in ("execute", "sql") and x.args and "DESCRIBE" in src(x.args[0]).upper():
+                            return True
+                        if isinstance(x, ast.Call) and depth < 2:
+                            for tq in P.resolve_call(fn, x):
+                                g_ = P.functions.get(tq)
+                                if g_ is not None and g_.module.name.startswith("vtlengine.duckdb_transpiler.io") and any(from_engine(st, g_, depth + 1) for st in g_.node.body):
+                                    return True
+                    return False
+                exprs = [arg]
+                if isinstance(arg, ast.Name):
+                    exprs = [d.value for d in walk_no_nested(f.node) if isinstance(d, (ast.Assign, ast.AnnAssign)) and d.value is not None
+                             and any(arg.id in {n_.id for n_ in ast.walk(t_) if isinstance(n_, ast.Name)} for t_ in (d.targets if isinstance(d, ast.Assign) else [d.target]))]
+                ok = bool(exprs) and all(from_engine(e_, f) for e_ in exprs)
+                rep.instance("R18.11", f"source-types/{f.qualname}", nontrivial=True, sample={"loader": f.qualname, "source_types": src(arg)[:60], "from_engine_description": ok})
+                if not ok:
+                    rep.add(Finding("R18.11", f"R18.11/source-types/{f.qualname}", f.module.rel, c.lineno, f.qualname,
+                                    f"the source types given to {callee.name}() (`{src(arg)[:60]}`) are not read from DuckDB's description of the source (DESCRIBE / cursor description): how DuckDB "
+                                    f"scans a column decides which guards apply - an object-dtype column holding text and a None is scanned as VARCHAR, so the strict Date format check must apply "
+                                    f"to it as it does to the same text in a CSV"))
+    rep.floor("R18.11 loaders passing source types", n11, 2)
     rep.assumptions = ["a CSV value and a string-typed DataFrame/Parquet value with the same text must meet the same rejecting guards",
                        "guards are recognised by error(), regexp_matches and FLOOR/TRUNC integrality tests in the emitted SQL"]
 
